@@ -226,6 +226,10 @@ func (in *Interp) runInits() {
 // ---------------------------------------------------------------- entry
 
 func (in *Interp) runEntry(p *Path, fn interface{}) {
+	if e, ok := fn.(func(in *Interp, p *Path)); ok {
+		e(in, p)
+		p.end("return", "")
+	}
 	f := fn.(*ssa.Function)
 	in.callFunction(p, nil, FuncVal{fn: f}, nil, nil)
 	p.end("return", "")
